@@ -1,7 +1,7 @@
 """C14 — reverse complement of a circular record stays circular and loses nothing"""
 import gen
 import impl
-from wire import CRec, feats_to_json, feats_from_json, positions, site_positions
+from wire import CRec, feats_to_json, feats_from_json, positions, site_positions, reading
 
 TABLES = []
 LAKE_TARGETS = ["Moclo.Props.C14"]
@@ -19,6 +19,24 @@ ASSUMPTIONS = ["'is again a CircularRecord' is a Python type fact: oracle only",
 
 def denot(feats, n):
     return sorted((f.ftype, f.qual, positions(f.parts, n), site_positions(f.parts, n)) for f in feats)
+
+
+def readings(feats, n):
+    """for every fully stranded feature, the order in which it reads its nucleotides (the order of the parts of a join
+    is part of what the feature denotes: it is the order of the exons); the flag says "one whole turn" (read cyclically)"""
+    return sorted((f.ftype, f.qual, reading(f.parts, n), len(f.parts) == 1 and f.parts[0][1] - f.parts[0][0] == n)
+                  for f in feats if reading(f.parts, n) is not None)
+
+
+def mirrored_readings(rd, n):
+    # the same molecule read by the same feature: same order, every nucleotide at its mirror position, other strand
+    out = []
+    for (t, q, r, whole) in rd:
+        m = [(n - 1 - p, -st) for (p, st) in r]
+        if whole and n > 0:
+            m = min(m[i:] + m[:i] for i in range(n))
+        out.append((t, q, m, whole))
+    return sorted(out)
 
 
 def mirrored(den, n):
@@ -48,12 +66,16 @@ def check_case(ctx, case):
     if denot(cout.feats, n) != mirrored(d_in, n):
         ctx.fail("a feature of the reverse complement does not denote the mirrored nucleotides on the "
                  "opposite strand", case)
+    r_in = readings(cin.feats, n)
+    if readings(cout.feats, n) != mirrored_readings(r_in, n):
+        ctx.fail("a stranded feature of the reverse complement does not read the mirrored nucleotides in the same order "
+                 "(the order of the parts of a join is the order of its exons)", case)
     twice = impl.canon_record(out.reverse_complement(), rid=3)
-    if twice.seq != wd or denot(twice.feats, n) != d_in:
+    if twice.seq != wd or denot(twice.feats, n) != d_in or readings(twice.feats, n) != r_in:
         ctx.fail("reverse complement applied twice does not give back the record", case)
     a = impl.canon_record((rec >> k).reverse_complement(), rid=3)
     b = impl.canon_record(out << k, rid=3)
-    if a.seq != b.seq or denot(a.feats, n) != denot(b.feats, n):
+    if a.seq != b.seq or denot(a.feats, n) != denot(b.feats, n) or readings(a.feats, n) != readings(b.feats, n):
         ctx.fail("rc(r >> {0}) differs from rc(r) << {0}".format(k), case)
     # what is carried over is chosen per kind, as in Biopython: features and per-letter values independently
     if n >= 1:
